@@ -95,6 +95,15 @@ def run_case(spec):
             folded[k] = big[arg[k]]
         yield 'pair_distance(batch of %d pairs)' % BIG, folded.reshape(nq, nq)
         yield 'get_metric()', np.array([[metric(Q[i], Q[j]) for j in range(nq)] for i in range(nq)])
+        # the same function object called with two REUSED buffers that are overwritten in place between calls
+        ub, vb = np.empty(ds.d), np.empty(ds.d)
+        R = np.zeros((nq, nq))
+        for i in range(nq):
+            for j in range(nq):
+                ub[:] = Q[i]
+                vb[:] = Q[j]
+                R[i, j] = metric(ub, vb)
+        yield 'get_metric() with reused argument buffers', R
 
     n_eval = 0
     for vname, M in views():
